@@ -204,6 +204,7 @@ class Verifier:
         kwB = {k: I.deepcopy(v, memo) for k, v in kwargs.items()}
         fref = self.prog.func(C.fn)
         rec = dict(kind="ok", inlined=None, goal=True, detail=None)
+        I.ghost = []
         try:
             result = I.call_ref(fref, list(args), dict(kwargs), top=True)
             outcome = ("ok", result)
@@ -224,6 +225,8 @@ class Verifier:
         goals = []
         spec = contract_fref(self.prog, C, "spec")
         ens = contract_fref(self.prog, C, "ensures")
+        if (spec is None and C.has("spec")) or (ens is None and C.has("ensures")) or (spec is None and ens is None and not C.raises):
+            raise Unsupported("contract %s has no locatable spec / ensures (vacuous)" % C.name)
         if outcome[0] == "raise":
             e = outcome[1]
             if any(e.isa(n) for n in C.raises):
@@ -241,6 +244,7 @@ class Verifier:
             rec.update(kind="raise", goal=False, detail="raises %s: %s" % (e.name, describe(e.msg)))
             return rec
         result = outcome[1]
+        ghost_fn, I.ghost = I.ghost, []
         if spec is not None:
             try:
                 exp = I.call_ref(spec, [C.case] + argsB, kwB, top=True)
@@ -255,6 +259,11 @@ class Verifier:
             else:
                 g2 = state_eq(I, list(args), argsB)
             goals += [g1, g2]
+            if ghost_fn or I.ghost:
+                g4 = state_eq(I, ghost_fn, I.ghost)
+                goals.append(g4)
+                if g4 is False:
+                    rec["detail"] = dict(effects=describe(ghost_fn), expected_effects=describe(I.ghost))
             if g1 is False or g2 is False:
                 rec["detail"] = dict(result=describe(result), expected=describe(exp), post=describe(list(args)), post_expected=describe(argsB))
         if ens is not None:
@@ -321,6 +330,14 @@ def replay(C, model, tag):
     req = dict(module=C.module, cls=C.clsname, case=C.case_name, contract=C.name, model=model or {})
     path = os.path.join(os.environ.get("VERIF_OUT") or VERIF, "replays", "%s.json" % tag)
     os.makedirs(os.path.dirname(path), exist_ok=True)
+    if getattr(C.cls, "abstract_callees", False):
+        # skeleton contract: callees are replaced by opaque results, so there is no concrete input to run;
+        # the replay file carries the failed obligation and the verifier's counter-model
+        res = dict(reproduced=None, skipped="abstract-callees", why=["the contract abstracts its callees: the counter-model assigns the unmodelled results, not inputs"])
+        req["replay"] = res
+        with open(path, "w") as f:
+            json.dump(req, f, indent=1, default=str)
+        return res, path
     with open(path, "w") as f:
         json.dump(req, f, indent=1, default=str)
     env = dict(os.environ, PYTHONPATH=scratch_dir() + os.pathsep + VERIF, PYTHONDONTWRITEBYTECODE="1")
